@@ -96,15 +96,60 @@ def _intersection(run, P):
             else:
                 run.violation("F-PATH/intersection-dominance", c, where(f, st), f"{p} is appended without a membership test on {sorted(arc_txt[a] for a in need - on)}: a point of one great circle that is not on both arcs is reported as an intersection")
     run.floor("F-PATH/intersection-dominance", n, 4)
-    # candidates: normalised direction and antipode
+    # candidates: normalised direction and antipode -- read from the points that are tested for membership, expanded over the function's inputs
     c = f"{f.key}:candidates"
-    x1 = next((st for st in iter_stmts(fn.body) if isinstance(st, ast.Assign) and norm(st.targets[0]) == "x1"), None)
-    x2 = next((st for st in iter_stmts(fn.body) if isinstance(st, ast.Assign) and norm(st.targets[0]) == "x2"), None)
-    normed = any(isinstance(st, ast.Assign) and norm(st.targets[0]) == "cross_norms" and isinstance(st.value, ast.BinOp) and isinstance(st.value.op, ast.Div) and "norm(" in norm(st.value.right) for st in iter_stmts(fn.body))
-    if x1 is not None and x2 is not None and norm(x1.value) == "cross_norms" and norm(x2.value) == "-x1" and normed:
-        run.holds("F-PATH/intersection-dominance", c, where(f, x1), "candidates are the unit intersection direction and its antipode")
+    from .. import symx
+    X = symx.Expander(P, keep={"cross", "cross_fma", "norm", "dot", "point_within_gca", "allclose", "isclose"})
+    def is_endpoint(e):
+        return isinstance(e, ast.Subscript) and isinstance(e.slice, ast.Constant) and e.slice.value in (0, 1) and isinstance(symx.strip_neutral(e.value), ast.Name) and symx.strip_neutral(e.value).id in arcs
+
+    def form(e):
+        """(sign, normalised?, direction text) for  +-C  /  +-C / norm(C)"""
+        sign = 1
+        while isinstance(e, ast.UnaryOp) and isinstance(e.op, ast.USub):
+            sign, e = -sign, e.operand
+        if isinstance(e, ast.BinOp) and isinstance(e.op, ast.Div) and isinstance(e.right, ast.Call) and symx.call_name(e.right) == "norm" and e.right.args:
+            num = e.left
+            while isinstance(num, ast.UnaryOp) and isinstance(num.op, ast.USub):
+                sign, num = -sign, num.operand
+            if norm(num) == norm(e.right.args[0]):
+                return sign, True, norm(num)
+            return None
+        if isinstance(e, ast.Call) and symx.call_name(e) in ("cross", "cross_fma"):
+            return sign, False, norm(e)
+        return None
+    verdicts = []      # per returning path that tests candidates: ("ok" | "bad", why) | ("unknown", why)
+    for path, r, env in X.returns(f, split_boolops=False):
+        tested = {}
+        for t, _v in X.conditions(f, path, env):
+            for x in ast.walk(t):
+                if isinstance(x, ast.Call) and symx.call_name(x) == "point_within_gca" and x.args and not is_endpoint(x.args[0]):
+                    tested[norm(x.args[0])] = x.args[0]
+        if not tested:
+            continue
+        forms = {k: form(v) for k, v in tested.items()}
+        if any(v is None for v in forms.values()):
+            bad_k = next(k for k, v in forms.items() if v is None)
+            verdicts.append(("unknown", f"tested point {bad_k[:80]} is not of the form +-C or +-C/norm(C)"))
+            continue
+        dirs = {v[2] for v in forms.values()}
+        signs = {v[0] for v in forms.values()}
+        why = []
+        if not all(v[1] for v in forms.values()):
+            why.append("a candidate is not normalised")
+        if signs != {1, -1}:
+            why.append("the antipode of the intersection direction is not a candidate")
+        if len(dirs) != 1:
+            why.append("the candidates are not built from one direction")
+        verdicts.append(("bad", "; ".join(why)) if why else ("ok", ""))
+    if any(v[0] == "bad" for v in verdicts):
+        run.violation("F-PATH/intersection-dominance", c, where(f), "the two candidate points are not the normalised cross direction and its antipode: " + next(v[1] for v in verdicts if v[0] == "bad"))
+    elif any(v[0] == "unknown" for v in verdicts):
+        run.incomplete("F-PATH/intersection-dominance", c, where(f), next(v[1] for v in verdicts if v[0] == "unknown"))
+    elif verdicts:
+        run.holds("F-PATH/intersection-dominance", c, where(f), f"candidates are the unit intersection direction and its antipode (on all {len(verdicts)} returning path(s) that test candidates)")
     else:
-        run.violation("F-PATH/intersection-dominance", c, where(f), "the two candidate points are not the normalised cross direction and its antipode")
+        run.incomplete("F-PATH/intersection-dominance", c, where(f), "no membership test of a candidate intersection point is visible in this function (candidates handed to a helper?)")
     # parallel test tolerance
     c = f"{f.key}:parallel-tolerance"
     par = None
